@@ -353,6 +353,84 @@ def twin_gen(level: int, k: int, m: int) -> bool:
     return check_gen(level, k, m)
 
 
+
+# ------------------------------------------------------------------ 4b. generator: the four levels related on real (tree, target dialect) pairs
+# pairs = [[read dialect, write dialect, sql], ...] harvested by props/C14.py: every target dialect with a statement for which
+# its generator reports at least one unsupported construct (sub-generators included: athena routes DDL to a Hive generator).
+GPAIRS = P.get("gpairs") or [["", "athena", "ALTER TABLE t ALTER COLUMN c SET DEFAULT 3"], ["", "sqlite", "SELECT a, TRY(b)"]]
+
+
+def _gen_run(tree, write, L, m):
+    g = Dialect.get_or_raise(write or None).generator(unsupported_level=L, max_unsupported=m)
+    h = _Stub(count_warnings=True)
+    old = _gm.logger
+    _gm.logger = h
+    out = raised = None
+    try:
+        try:
+            out = g.generate(tree)
+        except UnsupportedError as e:
+            raised = str(e)
+    finally:
+        _gm.logger = old
+    return out, raised, h.records
+
+
+def _gref():
+    """Reference per pair, computed concretely at import: the text (IGNORE run) and the messages (WARN run, IMMEDIATE run)."""
+    ref = []
+    for read, write, sql in GPAIRS:
+        tree = Dialect.get_or_raise(read or None).parse(sql)[0]
+        text, _, _ = _gen_run(tree, write, ErrorLevel.IGNORE, 3)
+        _, _, msgs = _gen_run(tree, write, ErrorLevel.WARN, 3)
+        ref.append((tree, write, text, list(msgs)))
+    return ref
+
+
+_GREF = _gref()
+
+
+def in_bounds_genx(gi: int, level: int, m: int) -> bool:
+    return 0 <= gi < len(_GREF) and 0 <= level < 4 and 0 <= m <= 3 and _ok({"gi": gi, "level": level, "m": m})
+
+
+def check_genx(gi: int, level: int, m: int) -> bool:
+    tree, write, text, msgs = _GREF[gi]
+    L = LEVELS[level]
+    out, raised, records = _gen_run(tree, write, L, m)
+    k = len(msgs)
+    if L == ErrorLevel.IGNORE:
+        return raised is None and out == text and not records
+    if L == ErrorLevel.WARN:
+        return raised is None and out == text and records == msgs
+    if records:
+        return False
+    if k == 0:
+        return raised is None and out == text
+    if raised is None:
+        return False
+    if L == ErrorLevel.IMMEDIATE:
+        return raised == msgs[0]
+    parts = msgs[:m] + (["... and " + str(k - m) + " more"] if k > m else [])
+    return raised == "\n\n".join(parts)
+
+
+def prop_genx(gi: int, level: int, m: int) -> bool:
+    """
+    pre: in_bounds_genx(gi, level, m)
+    post: _ == True
+    """
+    return check_genx(gi, level, m)
+
+
+def twin_genx(gi: int, level: int, m: int) -> bool:
+    """
+    pre: in_bounds_genx(gi, level, m)
+    post: False
+    """
+    return check_genx(gi, level, m)
+
+
 # ------------------------------------------------------------------ 5. the four-run relation on a corpus of real inputs
 CORPUS = P.get("corpus") or [
     "SELECT a FROM t",
@@ -456,8 +534,8 @@ def twin_parse(idx: int, m: int) -> bool:
     return check_parse(idx, m)
 
 
-_CHECKS = {"idx": check_parse, "n": check_funnel, "beh": check_try, "missing": check_validate, "k": check_gen}
-_BOUNDS = {"idx": in_bounds_parse, "n": in_bounds_funnel, "beh": in_bounds_try, "missing": in_bounds_validate, "k": in_bounds_gen}
+_CHECKS = {"gi": check_genx, "idx": check_parse, "n": check_funnel, "beh": check_try, "missing": check_validate, "k": check_gen}
+_BOUNDS = {"gi": in_bounds_genx, "idx": in_bounds_parse, "n": in_bounds_funnel, "beh": in_bounds_try, "missing": in_bounds_validate, "k": in_bounds_gen}
 
 
 def check(**kw) -> bool:
